@@ -1,10 +1,12 @@
 """C11 — separated large values stay intact and reachable (E2 engine with the value log enabled)."""
 from . import e2gen as G
+from . import crashwl as CW
 
 MODEL_TARGETS = ["theories/Spec/Machine.vo"]
 TRUSTED = ["values are compared byte-for-byte through #len/fnv digests; the value log is invisible to the specification machine, "
            "so every dependence on separation, file rotation or clean-up shows as a difference"]
-ASSUMPTIONS = ["sequential scripts; crash images with the value log enabled are covered by the C02/C03 workloads"]
+ASSUMPTIONS = ["sequential scripts"]
+CRASH_OPTS = ["lc=2,vlog=1,vth=8,vfs=128", "lc=2,vlog=1,vth=8,vfs=256,foc=1", "lc=3,vlog=1,vth=4,vfs=64", "lc=2,vlog=1,vth=8,vfs=128,vck=1"]
 
 OPTS = ["lc=2,vlog=1,vth=8,vfs=64", "lc=3,vlog=1,vth=1,vfs=256", "lc=2,vlog=1,vth=0,vfs=128", "lc=2,vlog=1,vth=64,vfs=4096",
         "lc=1,vlog=1,vth=8,vfs=64", "lc=3,vlog=1,vth=8,vfs=100000,bs=64", "lc=2,vlog=1,vth=8,vfs=64,vck=1"]
@@ -40,6 +42,16 @@ def explore(ctx):
                              "vlog file sizes from 64 bytes (rotation inside one flush) upward, overwrite/delete patterns that make files obsolete, "
                              "readers and open cursors held across flush / compaction / clean-up, reopen; non-trivial = a compaction, separated values "
                              "and at least 3 commits")
+    # crash recovery with separated values: every crash image (process crash, power loss) must open and return
+    # the acknowledged values byte for byte
+    c = CW.explore(dict(ctx, seed=ctx["seed"] + 3000), "C11", {"open-failed", "acked-lost", "not-a-prefix"}, n_quick=6, n_thorough=40, opts_pool=CRASH_OPTS)
+    r["violations"] += [(d, t) for (d, t, _) in c["violations"]][:3]
+    cov, cc = r["coverage"], c["coverage"]
+    cov["evaluations"] += cc["evaluations"]
+    cov["distinct_nontrivial"] += cc["distinct_nontrivial"]
+    cov["crash_images"] = cc.get("images")
+    cov["crash_verdicts"] = cc.get("verdicts")
+    cov["rule"] += "; plus crash images (recorder + file-system simulator, process crash and three power-loss policies) of workloads with separated values over value-log files of 64-256 bytes"
     return r
 
 
